@@ -262,6 +262,14 @@ Definition baseline_selection (o : bopts) (data : list row) : list row :=
   | None => baseline_before o data
   end.
 
+(* the warnings as the code computes them: against the limits moved by the options *)
+Definition baseline_warn_end (o : bopts) (data : list row) : bool :=
+  match b_end o, baseline_end_limit o (baseline_before o data) with
+  | Some e, Some el => last_ts data e <? el | _, _ => false end.
+Definition baseline_warn_start (o : bopts) (data : list row) : bool :=
+  match b_start o, baseline_start_limit o data with
+  | Some s, Some sl => sl <? first_ts data s | _, _ => false end.
+
 Lemma get_baseline_data_unfold : forall o data,
   get_baseline_data o data =
   match b_max_days o, b_start o with
@@ -271,12 +279,12 @@ Lemma get_baseline_data_unfold : forall o data,
     | [] => ErrNoData
     | _ => if all_missing (baseline_selection o data) then ErrNoData
            else Ok (blank_last (baseline_selection o data))
-                   (match b_end o with Some e => last_ts data e <? e | None => false end)
-                   (match b_start o with Some s => s <? first_ts data s | None => false end)
+                   (baseline_warn_end o data) (baseline_warn_start o data)
     end
   end.
 Proof.
-  intros o data. unfold get_baseline_data, baseline_selection, baseline_start_limit, baseline_before.
+  intros o data. unfold get_baseline_data, baseline_warn_end, baseline_warn_start, baseline_selection,
+    baseline_start_limit, baseline_before.
   destruct (b_max_days o); destruct (b_start o); reflexivity.
 Qed.
 
@@ -296,6 +304,13 @@ Definition reporting_selection (o : ropts) (data : list row) : list row :=
   | None => reporting_after o data
   end.
 
+Definition reporting_warn_end (o : ropts) (data : list row) : bool :=
+  match r_end o, reporting_end_limit o data with
+  | Some e, Some el => last_ts data e <? el | _, _ => false end.
+Definition reporting_warn_start (o : ropts) (data : list row) : bool :=
+  match r_start o, reporting_start_limit o (reporting_after o data) with
+  | Some s, Some sl => sl <? first_ts data s | _, _ => false end.
+
 Lemma get_reporting_data_unfold : forall o data,
   get_reporting_data o data =
   match r_max_days o, r_end o with
@@ -305,12 +320,12 @@ Lemma get_reporting_data_unfold : forall o data,
     | [] => ErrNoData
     | _ => if all_missing (reporting_selection o data) then ErrNoData
            else Ok (blank_last (reporting_selection o data))
-                   (match r_end o with Some e => last_ts data e <? e | None => false end)
-                   (match r_start o with Some s => s <? first_ts data s | None => false end)
+                   (reporting_warn_end o data) (reporting_warn_start o data)
     end
   end.
 Proof.
-  intros o data. unfold get_reporting_data, reporting_selection, reporting_end_limit, reporting_after.
+  intros o data. unfold get_reporting_data, reporting_warn_end, reporting_warn_start, reporting_selection,
+    reporting_end_limit, reporting_after.
   destruct (r_max_days o); destruct (r_end o); reflexivity.
 Qed.
 
@@ -318,8 +333,8 @@ Lemma baseline_ok_rows : forall o data rows we ws,
   get_baseline_data o data = Ok rows we ws ->
   rows = blank_last (baseline_selection o data) /\
   all_missing (baseline_selection o data) = false /\
-  we = (match b_end o with Some e => last_ts data e <? e | None => false end) /\
-  ws = (match b_start o with Some s => s <? first_ts data s | None => false end).
+  we = baseline_warn_end o data /\
+  ws = baseline_warn_start o data.
 Proof.
   intros o data rows we ws H. rewrite get_baseline_data_unfold in H.
   destruct (b_max_days o); destruct (b_start o); try discriminate;
@@ -332,8 +347,8 @@ Lemma reporting_ok_rows : forall o data rows we ws,
   get_reporting_data o data = Ok rows we ws ->
   rows = blank_last (reporting_selection o data) /\
   all_missing (reporting_selection o data) = false /\
-  we = (match r_end o with Some e => last_ts data e <? e | None => false end) /\
-  ws = (match r_start o with Some s => s <? first_ts data s | None => false end).
+  we = reporting_warn_end o data /\
+  ws = reporting_warn_start o data.
 Proof.
   intros o data rows we ws H. rewrite get_reporting_data_unfold in H.
   destruct (r_max_days o); destruct (r_end o); try discriminate;
@@ -638,49 +653,158 @@ Proof.
   apply In_reporting_selection in Hr. destruct Hr as [Hr _]. intros ->. destruct Hr.
 Qed.
 
-Lemma baseline_gap_warned_l : forall o data rows we ws, sorted data ->
-  get_baseline_data o data = Ok rows we ws ->
-  (we = true <-> exists e, b_end o = Some e /\ forall r, In r data -> ts r < e) /\
-  (ws = true <-> exists s, b_start o = Some s /\ forall r, In r data -> s < ts r).
-Proof.
-  intros o data rows we ws Hs H. pose proof (ok_data_nonempty_b _ _ _ _ _ H) as Hne.
-  apply baseline_ok_rows in H. destruct H as [_ [_ [-> ->]]]. split.
-  - destruct (b_end o) as [e|].
-    + rewrite (last_lt_iff data e Hs Hne). split.
-      * intros H. exists e. split; [reflexivity | exact H].
-      * intros [e' [E H]]. injection E as <-. exact H.
-    + split; [discriminate | intros [e [E _]]; discriminate].
-  - destruct (b_start o) as [s|].
-    + rewrite (first_gt_iff data s Hs Hne). split.
-      * intros H. exists s. split; [reflexivity | exact H].
-      * intros [s' [E H]]. injection E as <-. exact H.
-    + split; [discriminate | intros [s [E _]]; discriminate].
-Qed.
-
-Lemma reporting_gap_warned_l : forall o data rows we ws, sorted data ->
-  get_reporting_data o data = Ok rows we ws ->
-  (we = true <-> exists e, r_end o = Some e /\ forall r, In r data -> ts r < e) /\
-  (ws = true <-> exists s, r_start o = Some s /\ forall r, In r data -> s < ts r).
-Proof.
-  intros o data rows we ws Hs H. pose proof (ok_data_nonempty_r _ _ _ _ _ H) as Hne.
-  apply reporting_ok_rows in H. destruct H as [_ [_ [-> ->]]]. split.
-  - destruct (r_end o) as [e|].
-    + rewrite (last_lt_iff data e Hs Hne). split.
-      * intros H. exists e. split; [reflexivity | exact H].
-      * intros [e' [E H]]. injection E as <-. exact H.
-    + split; [discriminate | intros [e [E _]]; discriminate].
-  - destruct (r_start o) as [s|].
-    + rewrite (first_gt_iff data s Hs Hne). split.
-      * intros H. exists s. split; [reflexivity | exact H].
-      * intros [s' [E H]]. injection E as <-. exact H.
-    + split; [discriminate | intros [s [E _]]; discriminate].
-Qed.
-
-(* the dedicated error is raised exactly on an empty selection; nothing else can go wrong *)
 Definition b_args_ok (o : bopts) : bool :=
   match b_max_days o, b_start o with Some _, Some _ => false | _, _ => true end.
 Definition r_args_ok (o : ropts) : bool :=
   match r_max_days o, r_end o with Some _, Some _ => false | _, _ => true end.
+
+(* ---- gap warnings -------------------------------------------------------------------------
+   The property: "a gap between the requested limits and the data is always reported".  The code
+   compares the data range with the limits *after* the options have moved them, so
+     - a warning is never spurious (soundness, all options);
+     - it is complete exactly when the option that moves that limit is off
+       (end of a baseline: ignore_billing_period_gap_for_day_count; start of a baseline and end of
+        a reporting period: allow_billing_period_overshoot; start of a reporting period:
+        ignore_billing_period_gap_for_day_count);
+     - with the option on, the gap is silently dropped (refuted below by witnesses; the pinned
+       test-suite expects this behaviour for the baseline end, so it is recorded, not repaired). *)
+
+Definition gap_end (e : option Z) (data : list row) : Prop :=
+  exists x, e = Some x /\ forall r, In r data -> ts r < x.
+Definition gap_start (s : option Z) (data : list row) : Prop :=
+  exists x, s = Some x /\ forall r, In r data -> x < ts r.
+
+Lemma baseline_start_limit_given : forall o data s, b_args_ok o = true -> b_start o = Some s ->
+  baseline_start_target o (baseline_before o data) = Some s.
+Proof.
+  intros o data s Ha Hs. unfold b_args_ok in Ha. rewrite Hs in Ha.
+  unfold baseline_start_target. destruct (b_max_days o); [discriminate|].
+  destruct (baseline_end_limit o (baseline_before o data)); exact Hs.
+Qed.
+
+Lemma reporting_end_limit_given : forall o data e, r_args_ok o = true -> r_end o = Some e ->
+  reporting_end_target o (reporting_after o data) = Some e.
+Proof.
+  intros o data e Ha He. unfold r_args_ok in Ha. rewrite He in Ha.
+  unfold reporting_end_target. destruct (r_max_days o); [discriminate|].
+  destruct (reporting_start_limit o (reporting_after o data)); exact He.
+Qed.
+
+Lemma ok_args_b : forall o data rows we ws, get_baseline_data o data = Ok rows we ws -> b_args_ok o = true.
+Proof.
+  intros o data rows we ws H. unfold b_args_ok. unfold get_baseline_data in H.
+  destruct (b_max_days o); destruct (b_start o); try reflexivity; discriminate.
+Qed.
+Lemma ok_args_r : forall o data rows we ws, get_reporting_data o data = Ok rows we ws -> r_args_ok o = true.
+Proof.
+  intros o data rows we ws H. unfold r_args_ok. unfold get_reporting_data in H.
+  destruct (r_max_days o); destruct (r_end o); try reflexivity; discriminate.
+Qed.
+
+Lemma ok_before_nonempty : forall o data rows we ws,
+  get_baseline_data o data = Ok rows we ws -> baseline_before o data <> [].
+Proof.
+  intros o data rows we ws H. rewrite get_baseline_data_unfold in H.
+  destruct (b_max_days o); destruct (b_start o); try discriminate;
+    destruct (baseline_before o data); try discriminate; intros E; discriminate.
+Qed.
+Lemma ok_after_nonempty : forall o data rows we ws,
+  get_reporting_data o data = Ok rows we ws -> reporting_after o data <> [].
+Proof.
+  intros o data rows we ws H. rewrite get_reporting_data_unfold in H.
+  destruct (r_max_days o); destruct (r_end o); try discriminate;
+    destruct (reporting_after o data); try discriminate; intros E; discriminate.
+Qed.
+
+(* soundness: a warning is only ever issued for a real gap *)
+Lemma baseline_gap_sound_l : forall o data rows we ws, sorted data ->
+  get_baseline_data o data = Ok rows we ws ->
+  (we = true -> gap_end (b_end o) data) /\ (ws = true -> gap_start (b_start o) data).
+Proof.
+  intros o data rows we ws Hs H. pose proof (ok_data_nonempty_b _ _ _ _ _ H) as Hne.
+  pose proof (ok_before_nonempty _ _ _ _ _ H) as Hbne. pose proof (ok_args_b _ _ _ _ _ H) as Ha.
+  apply baseline_ok_rows in H. destruct H as [_ [_ [-> ->]]]. split.
+  - unfold baseline_warn_end. destruct (b_end o) as [e|] eqn:He; [|discriminate].
+    destruct (baseline_end_limit o (baseline_before o data)) as [el|] eqn:El; [|discriminate].
+    intros W. apply Z.ltb_lt in W. exists e. split; [reflexivity|].
+    destruct (baseline_end_limit_cases o data e el Hs He Hbne El) as [->|[_ [_ [Hle _]]]];
+      intros r Hr; pose proof (last_ts_max data e r Hs Hr); lia.
+  - unfold baseline_warn_start. destruct (b_start o) as [s|] eqn:Hst; [|discriminate].
+    unfold baseline_start_limit. rewrite (baseline_start_limit_given o data s Ha Hst).
+    destruct (b_overshoot o).
+    + destruct (nearest (baseline_before o data) s) as [n|] eqn:En; [|discriminate].
+      intros W. apply Z.ltb_lt in W. exfalso.
+      assert (Hsb : sorted (baseline_before o data)).
+      { unfold baseline_before. destruct (b_end o); [apply slice_to_sorted|]; exact Hs. }
+      destruct (nearest_spec _ _ _ Hsb En) as [Hin _]. apply in_map_iff in Hin.
+      destruct Hin as [r [<- Hr]].
+      assert (Hrd : In r data).
+      { unfold baseline_before in Hr. destruct (b_end o); [apply In_slice_to in Hr; tauto | exact Hr]. }
+      pose proof (first_ts_min data s r Hs Hrd). lia.
+    + intros W. exists s. split; [reflexivity|]. apply (first_gt_iff data s Hs Hne). exact W.
+Qed.
+
+Lemma reporting_gap_sound_l : forall o data rows we ws, sorted data ->
+  get_reporting_data o data = Ok rows we ws ->
+  (we = true -> gap_end (r_end o) data) /\ (ws = true -> gap_start (r_start o) data).
+Proof.
+  intros o data rows we ws Hs H. pose proof (ok_data_nonempty_r _ _ _ _ _ H) as Hne.
+  pose proof (ok_after_nonempty _ _ _ _ _ H) as Hane. pose proof (ok_args_r _ _ _ _ _ H) as Ha.
+  apply reporting_ok_rows in H. destruct H as [_ [_ [-> ->]]]. split.
+  - unfold reporting_warn_end. destruct (r_end o) as [e|] eqn:He; [|discriminate].
+    unfold reporting_end_limit. rewrite (reporting_end_limit_given o data e Ha He).
+    destruct (r_overshoot o).
+    + destruct (nearest (reporting_after o data) e) as [n|] eqn:En; [|discriminate].
+      intros W. apply Z.ltb_lt in W. exfalso.
+      assert (Hsa : sorted (reporting_after o data)).
+      { unfold reporting_after. destruct (r_start o); [apply slice_from_sorted|]; exact Hs. }
+      destruct (nearest_spec _ _ _ Hsa En) as [Hin _]. apply in_map_iff in Hin.
+      destruct Hin as [r [<- Hr]].
+      assert (Hrd : In r data).
+      { unfold reporting_after in Hr. destruct (r_start o); [apply In_slice_from in Hr; tauto | exact Hr]. }
+      pose proof (last_ts_max data e r Hs Hrd). lia.
+    + intros W. exists e. split; [reflexivity|]. apply (last_lt_iff data e Hs Hne). exact W.
+  - unfold reporting_warn_start. destruct (r_start o) as [s|] eqn:Hst; [|discriminate].
+    destruct (reporting_start_limit o (reporting_after o data)) as [sl|] eqn:Sl; [|discriminate].
+    intros W. apply Z.ltb_lt in W. exists s. split; [reflexivity|].
+    destruct (reporting_start_limit_cases o data s sl Hs Hst Hane Sl) as [->|[_ [_ [Hle _]]]];
+      intros r Hr; pose proof (first_ts_min data s r Hs Hr); lia.
+Qed.
+
+(* completeness, under the guard that the option moving that limit is off *)
+Lemma baseline_gap_warned_partial_l : forall o data rows we ws, sorted data ->
+  get_baseline_data o data = Ok rows we ws ->
+  (b_ignore_gap o = false -> (we = true <-> gap_end (b_end o) data)) /\
+  (b_overshoot o = false -> (ws = true <-> gap_start (b_start o) data)).
+Proof.
+  intros o data rows we ws Hs H. pose proof (baseline_gap_sound_l _ _ _ _ _ Hs H) as [S1 S2].
+  pose proof (ok_data_nonempty_b _ _ _ _ _ H) as Hne. pose proof (ok_args_b _ _ _ _ _ H) as Ha.
+  apply baseline_ok_rows in H. destruct H as [_ [_ [Ee Es]]]. split.
+  - intros Hig. split; [exact S1|]. intros [e [He Hg]]. rewrite Ee. unfold baseline_warn_end.
+    rewrite He. unfold baseline_end_limit. rewrite He, Hig. cbn [andb].
+    apply (last_lt_iff data e Hs Hne). exact Hg.
+  - intros Hov. split; [exact S2|]. intros [s [Hst Hg]]. rewrite Es. unfold baseline_warn_start.
+    rewrite Hst. unfold baseline_start_limit. rewrite (baseline_start_limit_given o data s Ha Hst), Hov.
+    apply (first_gt_iff data s Hs Hne). exact Hg.
+Qed.
+
+Lemma reporting_gap_warned_partial_l : forall o data rows we ws, sorted data ->
+  get_reporting_data o data = Ok rows we ws ->
+  (r_overshoot o = false -> (we = true <-> gap_end (r_end o) data)) /\
+  (r_ignore_gap o = false -> (ws = true <-> gap_start (r_start o) data)).
+Proof.
+  intros o data rows we ws Hs H. pose proof (reporting_gap_sound_l _ _ _ _ _ Hs H) as [S1 S2].
+  pose proof (ok_data_nonempty_r _ _ _ _ _ H) as Hne. pose proof (ok_args_r _ _ _ _ _ H) as Ha.
+  apply reporting_ok_rows in H. destruct H as [_ [_ [Ee Es]]]. split.
+  - intros Hov. split; [exact S1|]. intros [e [He Hg]]. rewrite Ee. unfold reporting_warn_end.
+    rewrite He. unfold reporting_end_limit. rewrite (reporting_end_limit_given o data e Ha He), Hov.
+    apply (last_lt_iff data e Hs Hne). exact Hg.
+  - intros Hig. split; [exact S2|]. intros [s [Hst Hg]]. rewrite Es. unfold reporting_warn_start.
+    rewrite Hst. unfold reporting_start_limit. rewrite Hst, Hig.
+    apply (first_gt_iff data s Hs Hne). exact Hg.
+Qed.
+
+(* the dedicated error is raised exactly on an empty selection; nothing else can go wrong *)
 
 Lemma all_missing_true_iff : forall d, all_missing d = true <-> forall r, In r d -> complete r = false.
 Proof.
